@@ -604,3 +604,76 @@ def x24_mut_self(sig, body):
     body = '{ let mut self__m = self;' + body[1:]
     hits.append('mut self')
     return sig, body, hits
+
+
+# ---------------------------------------------------------------- X9 immediately-invoked closure
+def x9_iife(s):
+    """let NAME = (|| { BODY; Ok(()) })();   ->
+       let mut NAME = Ok(()); 'iifeK: loop { BODY'; break; }
+    with `return X` -> `{ NAME = X; break 'iifeK; }` and `E?` -> match with the same exit.
+    Requires the closure's tail expression to be the literal `Ok(())`."""
+    hits = []
+    pat = re.compile(r'\blet (\w+) = \(\|\| \{')
+    while True:
+        m = pat.search(s)
+        if not m:
+            return s, hits
+        name = m.group(1)
+        b = m.end() - 1
+        e = match_close(s, b)
+        tail = s[e + 1:]
+        mm = re.match(r'\)\(\);', tail)
+        if not mm:
+            raise ValueError('X9: closure is not immediately invoked')
+        body = s[b + 1:e]
+        t = body.rstrip()
+        if not t.endswith('Ok(())'):
+            raise ValueError('X9: closure tail is not Ok(())')
+        body = t[:-len('Ok(())')]
+        k = _fresh('iife')
+        label = "'iife%d" % k
+        # `?` inside the closure body: exit of the closure
+        while True:
+            pos = []
+            i = 0
+            while i < len(body):
+                j = skip_literal(body, i)
+                if j != i:
+                    i = j
+                    continue
+                if body[i] == '?':
+                    pos.append(i)
+                i += 1
+            if not pos:
+                break
+            q = pos[0]
+            st = expr_start(body, q)
+            recv = body[st:q]
+            body = (body[:st] + "(match %s { Ok(__v) => __v, Err(__e) => { %s = Err(From::from(__e)); break %s; } })" % (recv, name, label)
+                    + body[q + 1:])
+        body = re.sub(r'\breturn ([^;]+);', lambda r: "{ %s = %s; break %s; }" % (name, r.group(1), label), body)
+        new = "let mut %s = Ok(()); %s: loop {%s break; }" % (name, label, body)
+        hits.append('let %s = (|| {..})()' % name)
+        s = s[:m.start()] + new + s[e + 1 + mm.end():]
+
+
+# ---------------------------------------------------------------- X10 for over a custom iterator
+def x10_custom_iter(s, recvs=()):
+    hits = []
+    for recv in recvs:
+        pat = re.compile(r'\bfor (\w+) in %s \{' % re.escape(recv))
+        while True:
+            m = pat.search(s)
+            if not m:
+                break
+            k = _fresh('it')
+            b = m.end() - 1
+            e = match_close(s, b)
+            body = s[b + 1:e]
+            if re.search(r'\bcontinue\b', body):
+                raise ValueError('X10: loop body contains continue')
+            new = ("let mut __it%d = %s; loop { let %s = match __it%d.next() { Some(__v) => __v, None => break };%s}"
+                   % (k, recv, m.group(1), k, body))
+            hits.append('for %s in %s' % (m.group(1), recv))
+            s = s[:m.start()] + new + s[e + 1:]
+    return s, hits
